@@ -268,6 +268,7 @@ type caseCfg struct {
 	fib     []fibRoute
 	mcast   []nm // prefixes with the multicast strategy
 	dnlTies bool // when several timers are due at the same instant service the DNL ticker first
+	loop    bool // drive the history through the real `go Thread.Run()` loop (QueueInterest/QueueData, self-firing timers)
 }
 type fibRoute struct {
 	prefix nm
@@ -289,7 +290,7 @@ func (c caseCfg) String() string {
 		}
 		return strings.Join(l, ",")
 	}
-	return fmt.Sprintf("cfg cap=%d serve=%s admit=%s dnl=%d fib=%s mcast=%s dnlfirst=%s", c.cap, b01(c.serve), b01(c.admit), c.dnlMs, j(fr), j(mc), b01(c.dnlTies))
+	return fmt.Sprintf("cfg cap=%d serve=%s admit=%s dnl=%d fib=%s mcast=%s dnlfirst=%s loop=%s", c.cap, b01(c.serve), b01(c.admit), c.dnlMs, j(fr), j(mc), b01(c.dnlTies), b01(c.loop))
 }
 
 func parseCfg(s string) caseCfg {
@@ -305,6 +306,8 @@ func parseCfg(s string) caseCfg {
 			c.admit = kv[1] == "1"
 		case "dnl":
 			c.dnlMs = unopt(kv[1])
+		case "loop":
+			c.loop = kv[1] == "1"
 		case "dnlfirst":
 			c.dnlTies = kv[1] == "1"
 		case "fib":
@@ -378,6 +381,11 @@ func genUniverse(r *rand.Rand) []nm {
 }
 
 func genCase(r *rand.Rand, mode string) (caseCfg, []hop) {
+	if mode == "loop" { // pipeline / mixed histories driven through the real Thread.Run goroutine
+		cfg, ops := genCase(r, []string{"fw", "mix"}[r.Intn(2)])
+		cfg.loop = true
+		return cfg, ops
+	}
 	u := genUniverse(r)
 	pick := func() nm { return u[r.Intn(len(u))] }
 	cfg := caseCfg{cap: r.Intn(9), serve: true, admit: true, dnlMs: []int{300, 1000, 6000}[r.Intn(3)], dnlTies: r.Intn(2) == 0}
@@ -794,8 +802,9 @@ func (w *world) dumpState() {
 		sort.Strings(d.Broken)
 		broken = strings.ReplaceAll(strings.Join(d.Broken, ";"), " ", "_")
 	}
-	s := fmt.Sprintf("npit=%d ncs=%d tok=%d heap=%d csmap=%d lruq=%s locs=%d dnl=%d dnlq=%d broken=%s nodes=%s",
-		d.NPitReported, d.NCsReported, d.TokenMap, d.Heap, d.CsMap, qs, d.LruLocations, dl, dq, broken, strings.Join(ns, "|"))
+	// the sizes as production reads them: PitCsTable.PitSize()/CsSize() and Thread.GetNumPitEntries()/GetNumCsEntries()
+	s := fmt.Sprintf("npit=%d ncs=%d apit=%d acs=%d tpit=%d tcs=%d tok=%d heap=%d csmap=%d lruq=%s locs=%d dnl=%d dnlq=%d broken=%s nodes=%s",
+		d.NPitReported, d.NCsReported, w.tbl.PitSize(), w.tbl.CsSize(), w.th.GetNumPitEntries(), w.th.GetNumCsEntries(), d.TokenMap, d.Heap, d.CsMap, qs, d.LruLocations, dl, dq, broken, strings.Join(ns, "|"))
 	if s == w.lastSt {
 		w.line("obs same")
 	} else {
@@ -807,6 +816,15 @@ func (w *world) dumpState() {
 // runFor emulates the forwarding thread's loop for d of virtual time: the PIT update signal and the DNL ticker are
 // served at the instant they become ready.
 func (w *world) runFor(d time.Duration) {
+	if w.cfg.loop {
+		// the real Thread.Run goroutine serves its own timers while this goroutine sleeps
+		time.Sleep(d)
+		synctest.Wait()
+		w.line("op sleep %d", d.Nanoseconds())
+		w.last = time.Now()
+		w.dumpState()
+		return
+	}
 	deadline := time.Now().Add(d)
 	for {
 		rem := time.Until(deadline)
@@ -900,6 +918,10 @@ func (w *world) exec(o hop) {
 				w.line("obs find copyerr")
 			} else {
 				w.line("obs find %s %d", nmOfEnc(d.NameV), w.wid(raw))
+				if e.Index() != d.NameV.Hash() {
+					w.line("obs apibad CsEntry.Index()_differs_from_the_hash_of_the_returned_Data_name")
+				}
+				w.line("obs stale %d", e.StaleTime().UnixNano())
 			}
 		}
 	case "int":
@@ -909,7 +931,12 @@ func (w *world) exec(o hop) {
 		if o.nh != 0 {
 			ipkt.NextHopFaceID = utils.IdPtr(o.nh)
 		}
-		fw.VerifPitcsIncomingInterest(w.th, ipkt)
+		if w.cfg.loop {
+			w.th.QueueInterest(ipkt)
+			synctest.Wait()
+		} else {
+			fw.VerifPitcsIncomingInterest(w.th, ipkt)
+		}
 		var sentTo []string
 		var datas []string
 		for _, s := range w.sent {
@@ -927,8 +954,18 @@ func (w *world) exec(o hop) {
 			dt = strings.Join(datas, ",")
 		}
 		w.noteHandle(o.name, o.cbp, o.mbf)
+		xpkt, _ := mkInterest(o) // a fresh packet: a cache hit turns the processed one into a Data packet
+		xe := w.tbl.FindInterestExactMatchEnc(xpkt.Interest)
 		w.line("op int %d %s %s %s %d %s %s", o.face, o.name, b01(o.cbp), b01(o.mbf), o.nonce, opt(o.life), st)
 		w.line("obs int %s", dt)
+		if xe == nil {
+			w.line("obs exactpit 0")
+		} else {
+			w.line("obs exactpit 1")
+			if !xe.EncName().Equal(o.name.enc()) || xe.CanBePrefix() != o.cbp || xe.MustBeFresh() != o.mbf {
+				w.line("obs apibad FindInterestExactMatchEnc_returned_an_entry_with_another_name_or_selectors")
+			}
+		}
 		life := 4000 * time.Millisecond
 		if o.life >= 0 {
 			life = time.Duration(o.life) * time.Millisecond
@@ -959,7 +996,12 @@ func (w *world) exec(o hop) {
 			}
 		}
 		w.sent = nil
-		fw.VerifPitcsIncomingData(w.th, pkt)
+		if w.cfg.loop {
+			w.th.QueueData(pkt)
+			synctest.Wait()
+		} else {
+			fw.VerifPitcsIncomingData(w.th, pkt)
+		}
 		w.line("op data %s %d %s %s", o.name, w.wid(raw), opt(o.fresh), tok)
 	case "rmstale":
 		// RemoveInterest on a handle whose entry is no longer in the table (removed by the reaper; the node may have been
@@ -1032,6 +1074,11 @@ func runCase(t *testing.T, out *bufio.Writer, k int, src string, cfg caseCfg, op
 		w.th = fw.NewThread(0)
 		w.tbl = fw.VerifPitcsTable(w.th)
 		w.dnl = fw.VerifPitcsDnl(w.th)
+		core.ShouldQuit = false
+		if cfg.loop {
+			go w.th.Run()
+			synctest.Wait()
+		}
 		w.last = time.Now()
 		w.line("case %d %s", k, src)
 		w.line("gen %s", cfg)
@@ -1060,10 +1107,17 @@ func runCase(t *testing.T, out *bufio.Writer, k int, src string, cfg caseCfg, op
 			}
 		}()
 		w.line("end")
-		// leave the bubble cleanly: consume the pending update signal without rescheduling, stop the ticker
+		// leave the bubble cleanly: stop the Run loop (if any), consume a pending update signal without rescheduling, stop the ticker
 		core.ShouldQuit = true
-		<-w.tbl.UpdateTimer()
-		w.tbl.Update()
+		if cfg.loop {
+			w.th.TellToQuit()
+			<-w.th.HasQuit
+		}
+		select {
+		case <-w.tbl.UpdateTimer():
+			w.tbl.Update()
+		case <-time.After(time.Second): // no signal pending (a tree whose loop stopped re-arming the reaper)
+		}
 		core.ShouldQuit = false
 		w.dnl.Ticker.Stop()
 	})
@@ -1140,11 +1194,11 @@ func TestTrace(t *testing.T) {
 		}
 	}
 	r := rand.New(rand.NewSource(seed))
-	modes := []string{"cs", "fw", "mix", "dnl"}
+	modes := []string{"cs", "fw", "mix", "dnl", "loop"}
 	for i := 0; i < n; i++ {
 		m := mode
 		if mode == "all" {
-			m = modes[i%4]
+			m = modes[i%5]
 		}
 		cfg, ops := genCase(r, m)
 		runCase(t, out, k, "gen:"+m, cfg, ops)
